@@ -36,8 +36,17 @@ def run(ctx):
     inv["id"] = len(scenes)
     scenes.append(inv)
     by_name = {"scene%d" % s["id"]: s for s in scenes}
+    # hand-constructed inputs with rectangular arrays (zero-offset cell at every flattened index, nested, random)
+    arrays = solids.array_inputs(ctx.seed)
+    if not q:
+        for k in (1, 2):
+            more = solids.array_inputs(ctx.seed + k)
+            for a in more:
+                a["name"] = "s%d_%s" % (k, a["name"])
+            arrays += more
+    by_name.update({a["name"]: a for a in arrays})
 
-    shards = [scenes[i::nshard] for i in range(nshard)]
+    shards = [scenes[i::nshard] + arrays[i::nshard] for i in range(nshard)]
 
     def harness(i):
         sp = ctx.path("scenes_%d.ndjson" % i)
@@ -121,10 +130,13 @@ def run(ctx):
         "evaluations": total.get("inputs", 0),
         "distinct_nontrivial": total.get("roundtrips", 0),
         "rule": "program = one OrangeInput written with operator<< and read back with operator>> (all bundled "
-                ".org.json fixtures + inputs built by the C09 generator through the construction API); "
+                ".org.json fixtures + inputs built by the C09 generator through the construction API + hand-constructed "
+                "inputs with rectangular arrays: 1-3 cells per axis, the zero-offset daughter at every flattened index, "
+                "centred, nested and seeded random ones); "
                 "disagreements_checked = projected fields compared (bit patterns for doubles) + ray trace items "
                 "(volume labels and distance bit tokens) compared; every input is distinct (fixture files / seeded scenes)",
         "inputs": total.get("inputs", 0), "fixtures": len(fixtures), "generated": len(scenes),
+        "hand_built_rect_arrays": len(arrays),
         "fields_compared": total.get("fields", 0), "rays": total.get("rays", 0),
         "ray_items_compared": total.get("ray_items", 0), "ray_segments": total.get("segments", 0),
         "json_bytes": total.get("bytes", 0),
